@@ -1,51 +1,35 @@
 """C15 - module constants are exported with the WGSL type and exact value.
 
-Decided on the output grammar (Engine A), anchored on the repetition over `module.constants`:
-  * one `pub const <name>: <ty> = <value>;` production per element, name = the constant's own name (identity);
-  * for every variant of naga::Literal (variants and payload types read from the pinned naga source) there is a row whose
-    declared type token equals the payload's Rust type and whose value hole is the bound payload itself with an empty
-    conversion chain (quote prints a suffixed literal of that type, so type and value always agree and the value is exact);
-  * scalar zero-value constructors (`const Z = u32();`, kept by naga as Expression::ZeroValue) are exported as the zero of
-    their scalar type for every scalar kind/width; zero values of non-scalar types and all other expression kinds yield no
-    item; the only filters are "has a name" and "is a scalar literal / scalar zero value".
+Decided on the output grammar (Engine A), anchored on the function that turns `module.constants` into `pub const` items.
+  * dependence (structural, on the extracted term): the section reads only module.constants[*].{name, init}, module.global_expressions and
+    module.types; the only operations applied to a literal's payload are taken from a whitelist that cannot change the value (identity,
+    sign test / absolute value used to print sign and magnitude separately, comparison with zero) - in particular no cast, arithmetic or
+    formatting;
+  * instantiation (the grammar is instantiated, never the generator run) on a model constant list that contains, for every variant of
+    naga::Literal (variants and payload types read from the pinned naga source), boundary and ordinary values (0, -0.0, negative, maximal ..),
+    a zero-value constructor for every scalar kind/width, non-scalar zero values, a non-literal expression and an unnamed constant: the result
+    must be exactly one `pub const <name>: <payload type> = <payload printed as a literal of that type>;` per named scalar literal / scalar zero
+    value, in order, and nothing for the rest.
+Because the comparison is made on the instantiated text, it does not depend on how the source splits the work (nested matches, helper
+functions returning Option, a unified literal/zero-value path).
 Not decided: that proc-macro2/syn/prettyplease print a float literal that parses back bit-identically (library law)."""
 import engine_ogp as E
+import engine_skel as K
 import schema as S
+from conc import V, Diverge, Unbound
 
-TRUE = ('true',)
-
-
-def atoms(c, out):
-    if c[0] == 'okcond':
-        atoms(c[1], out)
-    elif c[0] in ('and', 'or'):
-        for x in c[1]:
-            atoms(x, out)
-    elif c[0] == 'not':
-        atoms(c[1], out)
-    elif c[0] == 'alt':
-        for a, b in c[1]:
-            atoms(a, out)
-            atoms(b, out)
-    elif c[0] not in ('true', 'false'):
-        out.append(c)
+PAYLOAD_OPS = ('abs', 'is_sign_negative', 'is_sign_positive', 'clone', 'to_owned', 'get')
+LIT_TY = {'F64': 'f64', 'F32': 'f32', 'U32': 'u32', 'I32': 'i32', 'U64': 'u64', 'I64': 'i64', 'Bool': 'bool', 'AbstractInt': 'i64', 'AbstractFloat': 'f64'}
+SAMPLES = {
+    'f64': [1.5, -2.25, 0.0, -0.0, 3.0, 1.0e10], 'f32': [1.5, -2.25, 0.0, -0.0, 3.0], 'u32': [0, 7, 4294967295], 'i32': [-5, 0, 2147483647, -2147483648],
+    'u64': [0, 18446744073709551615], 'i64': [-9223372036854775808, 42, 0], 'bool': [True, False],
+}
 
 
-def derived(term, base):
-    found = [False]
-
-    def f(x):
-        if x == base:
-            found[0] = True
-            return False
-    E.walk(term, f)
-    return found[0]
-
-
-def find_stars(term, pred):
-    out = []
-    E.walk(term, lambda x: out.append(x) if x[0] == 'star' and pred(x) else None)
-    return out
+def contains_payload(t):
+    hit = []
+    E.walk(t, lambda x: hit.append(1) if (x[0] == 'vf' and '::Literal::' in str(x[2])) or (x[0] == 'call' and str(x[1]).endswith('Literal::zero')) else None)
+    return bool(hit)
 
 
 def run(rep):
@@ -53,148 +37,118 @@ def run(rep):
     sch = S.load()
     rep.explanation = __doc__
     rep.trusted = ['syn parser and the abstract semantics of Engine A', 'quote prints primitive values as suffixed literals of their own type',
-                   'float printing/parsing round-trips (proc-macro2, syn, prettyplease, rustfmt)']
+                   'float printing/parsing round-trips (proc-macro2, syn, prettyplease, rustfmt)', 'naga::Literal::zero(scalar) as in the pinned naga source']
     lit = sch.enums['naga::Literal']
+    crate = ogp.crate
     hits = []
     for q, v in ogp.summaries.items():
-        for st in find_stars(v, lambda s: s[1][0] == 'f' and s[1][2] == 'constants' and s[1][1][0] == 'param'):
-            ts = E.find_templates(st[3], lambda t: E.tmpl_text(t).startswith('pub const #'))
-            if ts:
-                hits.append((q, st, ts[0]))
+        if v is None:
+            continue
+        stars = []
+        E.walk(v, lambda x: stars.append(x) if x[0] == 'star' and x[1][0] == 'f' and x[1][2] == 'constants' and x[1][1][0] == 'param' else None)
+        for st in stars:
+            if E.find_templates(st[3], lambda t: E.tmpl_text(t).startswith('pub const #')):
+                hits.append((len(crate.call_graph()[q]), q, st))
     rep.floor('repetition over module.constants producing `pub const` items', len(hits), 1)
     if not hits:
         return
-    hits.sort(key=lambda h_: len(ogp.crate.call_graph()[h_[0]]))   # the innermost function that contains the whole repetition
-    q, st, tmpl = hits[0]
-    f = ogp.crate.fns[q]
-    where = f"{ogp.crate.relfile(f['file'])} fn {f['name']} (template at {tmpl[1]})"
+    hits.sort(key=lambda h_: h_[:2])
+    _, q, st = hits[0]
+    f = crate.fns[q]
+    where = f"{crate.relfile(f['file'])} fn {f['name']}"
+    summ = ogp.summaries[q]
+    modP = st[1][1]
+    rep.analysed = {'function': q, 'literal_variants': {k: v['fields'][0][1] for k, v in lit.items()}}
+    rep.check(set(lit) == set(LIT_TY) and all(LIT_TY[k] == v['fields'][0][1] for k, v in lit.items()), 'C15.literal-table', 'naga-literal-variants', where,
+              f'the variants / payload types of naga::Literal in the pinned source ({ {k: v["fields"][0][1] for k, v in lit.items()} }) differ from the table this rule enumerates',
+              ok_detail=f'{len(lit)} variants')
+    # ---- dependence ---------------------------------------------------------------------------------------------------------------------
+    mod_fields, const_fields, bad_ops = set(), set(), []
     elem = ('elem', st[2], st[1])
-    item = ('tf', elem, 1)
-    text = E.tmpl_text(tmpl)
-    hs = E.holes(tmpl)
-    rep.analysed = {'function': q, 'template': text, 'literal_variants': {k: v['fields'][0][1] for k, v in lit.items()}}
-    rep.check(text.split() == ['pub', 'const', '#' + list(hs)[0], ':', '#' + list(hs)[1], ';'] if len(hs) == 2 else False, 'C15.item-shape', 'item-shape', where,
-              f'the constant item is not `pub const #name : #type_and_value ;` (found `{text}`)', ok_detail=text)
-    if len(hs) != 2:
-        return
-    name_t, tv = list(hs.values())
-    want_name = ('call', 'Ident::new', [('unwrap', ('f', item, 'name'))])
-    rep.check(name_t == want_name, 'C15.name-identity', 'name', where,
-              f'the constant\'s Rust name is not the WGSL name unchanged (found {E.show(name_t, maxdepth=6)})', ok_detail='Ident::new(constant.name)')
-    # decision rows
-    rows = {}
-    scrut = []
 
-    def f_alt(x):
-        if x[0] == 'alt':
-            for c, v in x[1]:
-                if c[0] == 'is' and '::Literal::' in c[2]:
-                    rows.setdefault(c[2].split('::')[-1], []).append((c, v))
-                    if not any(c[1] == s for s in scrut):
-                        scrut.append(c[1])
-    E.walk(tv, f_alt)
-    rep.check(len(scrut) == 1, 'C15.scrutinee', 'scrutinee', where, f'expected one naga::Literal scrutinee, found {len(scrut)}', ok_detail=E.show(scrut[0], maxdepth=6) if scrut else '')
-    if len(scrut) != 1:
-        return
-    L = scrut[0]
-    wantL = ('vf', ('idx', ('f', st[1][1], 'global_expressions'), ('f', item, 'init')), 'naga::Expression::Literal', '0')
-    rep.check(L == wantL, 'C15.literal-source', 'literal-source', where,
-              f'the literal is not module.global_expressions[constant.init] of the same constant (found {E.show(L, maxdepth=7)})',
-              ok_detail='module.global_expressions[constant.init] as Expression::Literal')
-    for vname, info in lit.items():
-        pty = info['fields'][0][1] if info['fields'] else None
-        key = f'C15.literal-type:{vname}'
-        if vname not in rows:
-            rep.bad('C15.literal-row', key, where, f'no row for naga::Literal::{vname}: named constants of that type are silently not exported')
-            continue
-        c, v = rows[vname][0]
-        ts = E.find_templates(v, lambda t: True)
-        if not ts:
-            rep.bad('C15.literal-row', key, where, f'the row for naga::Literal::{vname} yields no item ({E.show(v, maxdepth=4)})')
-            continue
-        t = ts[0]
-        txt = E.tmpl_text(t).split()
-        hh = E.holes(t)
-        ok_shape = len(txt) == 3 and txt[1] == '=' and txt[2].startswith('#') and len(hh) == 1
-        if not ok_shape:
-            rep.bad('C15.literal-row', key, where, f'row {vname}: expected `<type> = #value`, found `{" ".join(txt)}`')
-            continue
-        rep.check(txt[0] == pty, 'C15.literal-type', key, f'{where} row {vname}',
-                  f'naga::Literal::{vname}({pty}) is declared as `{txt[0]}`: quote prints the value as a `{pty}` literal, so `pub const X: {txt[0]} = 1{pty};` does not compile '
-                  f'(or silently changes the type)', ok_detail=f'{vname}({pty}) -> `{txt[0]} = #v`')
-        hv = list(hh.values())[0]
-        rep.check(hv == ('vf', L, c[2], '0'), 'C15.value-identity', f'C15.value:{vname}', f'{where} row {vname}',
-                  f'the value of a {vname} constant is not the literal payload itself (found {E.show(hv, maxdepth=6)}): a conversion changes the exported value',
-                  ok_detail='value hole = the bound payload, no conversion')
-    extra_rows = [r for r in rows if r not in lit]
-    # filters
-    at = []
-    for c in st[4]:
-        atoms(c, at)
-    bad = []
-    for a in at:
-        if a[0] == 't' and a[1][0] in ('is_ok', 'is_some') and a[1][1] == ('f', item, 'name'):
-            continue
-        if a[0] == 'is' and (a[2].endswith('Expression::Literal') or '::Literal::' in a[2]):
-            continue
-        if a[0] == 'is' and a[2].endswith('Expression::ZeroValue') and a[1] == wantL[1]:
-            continue
-        zty = ('f', ('idx', ('f', st[1][1], 'types'), ('vf', wantL[1], 'naga::Expression::ZeroValue', '0')), 'inner')
-        if a[0] in ('is', 'eq') and derived(a[1], zty):
-            continue   # type tests on the zero value's own type (judged row by row by the zero-value rule)
-        if a[0] == 'is' and a[2].split('::')[-1] in ('Some', 'None') and a[1] == ('f', item, 'name'):
-            continue
-        bad.append(a)
-    rep.check(not bad, 'C15.filters', 'filters', where, f'constants are additionally filtered by {[E.show(a, maxdepth=4) for a in bad][:3]}: some named scalar constants are not exported',
-              ok_detail='only "has a name" and "is a scalar literal"')
-    # other expression kinds yield nothing
-    non_lit = []
-
-    def f_expr(x):
-        if x[0] == 'alt':
-            for c, v in x[1]:
-                if c[0] == 'is' and '::Expression::' in c[2] and not c[2].endswith(('::Literal', '::ZeroValue')):
-                    if E.find_templates(v, lambda t: True):
-                        non_lit.append(c[2])
-    E.walk(tv, f_expr)
-    rep.check(not non_lit, 'C15.non-scalar-skipped', 'non-scalar', where, f'expression kinds {non_lit} also produce constant items', ok_detail='only Expression::Literal and scalar Expression::ZeroValue yield an item')
-    rep.floor('rows of the literal table', sum(1 for v in lit if v in rows), len(lit))
-    # ---- scalar zero-value constructors (`const Z = u32();` stays Expression::ZeroValue in naga's IR) -------------------------------
-    from conc import Eval, V, Diverge, Unbound
-    import leaf_tables as LT
-    expr = wantL[1]
-    tyinner = ('f', ('idx', ('f', st[1][1], 'types'), ('vf', expr, 'naga::Expression::ZeroValue', '0')), 'inner')
-    TI = 'naga::TypeInner::'
-    pts = [(f'scalar/{k}{w * 8}', V(TI + 'Scalar', **{'0': LT.scalar_v(k, w)}), LT.rust_scalar(k, w)) for k, w in LT.SCALARS]
-    pts += [('vector', V(TI + 'Vector', size=LT.vsize(3), scalar=LT.scalar_v('Float', 4)), None),
-            ('matrix', V(TI + 'Matrix', columns=LT.vsize(2), rows=LT.vsize(2), scalar=LT.scalar_v('Float', 4)), None),
-            ('array', V(TI + 'Array', base='h', size=V('naga::ArraySize::Constant', **{'0': 2}), stride=4), None),
-            ('struct', V(TI + 'Struct', members=(), span=4), None)]
-    for label, inner, rty in pts:
-        def leaf(t, inner=inner):
-            if t == expr:
-                return (V('naga::Expression::ZeroValue', **{'0': 'h'}),)
-            if t == tyinner:
-                return (inner,)
-            if t[0] in ('is_ok', 'is_some') and t[1] == ('f', item, 'name'):
-                return (True,)
-            return None
-        ev = Eval(leaf, lenient=False)
-        key = f'C15.zero-value:{label}'
-        try:
-            emitted = all(ev.truth(c) for c in st[4])
-            text = ev.ev(tv) if emitted else None
-        except Diverge:
-            emitted, text = False, None
-        except Unbound as u:
-            rep.bad('C15.zero-value', key, where, f'cannot evaluate the constant table for a zero-value constructor of type {label}: {u}', undecided=True)
-            continue
+    def dep(x):
+        if x[0] == 'f' and x[1] == modP:
+            mod_fields.add(x[2])
+        if x[0] == 'f' and x[1] in (('tf', elem, 1), elem):
+            const_fields.add(x[2])
+        if x[0] == 'mcall' and contains_payload(x[1]) and x[2] not in PAYLOAD_OPS:
+            bad_ops.append(f'.{x[2]}()')
+        if x[0] == 'cast' and contains_payload(x[1]):
+            bad_ops.append(f'as {x[2]}')
+        if x[0] == 'bin' and (contains_payload(x[2]) or contains_payload(x[3])):
+            other = x[3] if contains_payload(x[2]) else x[2]
+            if not (x[1] in ('<', '>', '<=', '>=') and other[0] == 'lit' and float(other[2]) == 0):
+                bad_ops.append(f'operator {x[1]}')
+        if x[0] == 'fmt' and any(contains_payload(a) for a in x[2]):
+            bad_ops.append('format!')
+    E.walk(summ, dep)
+    rep.check(mod_fields <= {'constants', 'global_expressions', 'types'} and const_fields <= {'name', 'init', 'ty'}, 'C15.dependence', 'reads', where,
+              f'the constants section also reads module.{sorted(mod_fields - {"constants", "global_expressions", "types"})} / constant fields {sorted(const_fields - {"name", "init", "ty"})}',
+              ok_detail=f'reads module.{sorted(mod_fields)}, constant.{sorted(const_fields)}')
+    rep.check(not bad_ops, 'C15.value-identity', 'payload-operations', where,
+              f'the payload of a literal goes through {sorted(set(bad_ops))}: a conversion can change the exported value or its type', ok_detail='payload only printed (sign / magnitude split allowed)')
+    # ---- instantiation ------------------------------------------------------------------------------------------------------------------
+    m = K.Model('constants')
+    L = 'naga::Literal::'
+    sc = {(k, w): m.scalar(k, w) for k, w in (('Float', 8), ('Float', 4), ('Float', 2), ('Uint', 4), ('Sint', 4), ('Uint', 8), ('Sint', 8), ('Bool', 1))}
+    vec = m.vec(4)
+    arr = m.array(sc[('Float', 4)], 3, 4)
+    stt = m.struct('S', [('a', sc[('Float', 4)], None, 0)], 4)
+    expected = []
+    n = 0
+    for var in lit:
+        rty = LIT_TY.get(var)
         if rty is None:
-            rep.check(not emitted, 'C15.zero-value', key, where, f'a zero-value constant of non-scalar type ({label}) is exported as `{text}`', ok_detail='skipped')
-        else:
-            want = 'bool = false' if rty == 'bool' else f'{rty} = 0{rty}'
-            alt_ok = text is not None and text.replace(' ', '') in (want.replace(' ', ''), f'{rty}=0.0{rty}', f'{rty}=0' if rty != 'bool' else 'bool=false', f'{rty}=0.0' if rty[0] == 'f' else '')
-            rep.check(emitted and alt_ok, 'C15.zero-value', key, where,
-                      f'`const Z = {rty}();` (naga keeps it as Expression::ZeroValue of a scalar type) is ' + (f'exported as `{text}`' if emitted else 'not exported at all') +
-                      f'; expected `pub const Z: {want};`: a named scalar constant is missing from / wrong in the bindings',
-                      ok_detail=f'{label} -> `{text}`')
+            continue
+        for val in SAMPLES[rty]:
+            n += 1
+            name = f'K_{var}_{n}'
+            payload = val if rty == 'bool' else K.Num(rty, float(val) if rty.startswith('f') else val)
+            m.const(name, sc[('Float', 4)], V('naga::Expression::Literal', **{'0': V(L + var, **{'0': payload})}))
+            text = ('true' if val else 'false') if rty == 'bool' else payload.text()
+            expected.append((name, f'literal {var}({text})', f'pub const {name} : {rty} = {text} ;'))
+    for (k, w), h in sc.items():
+        name = f'Z_{k}{w * 8}'
+        m.const(name, h, V('naga::Expression::ZeroValue', **{'0': h}))
+        zt = {('Float', 8): 'f64 = 0f64', ('Float', 4): 'f32 = 0f32', ('Uint', 4): 'u32 = 0u32', ('Sint', 4): 'i32 = 0i32', ('Uint', 8): 'u64 = 0u64', ('Sint', 8): 'i64 = 0i64',
+              ('Bool', 1): 'bool = false'}.get((k, w))
+        if zt:
+            expected.append((name, f'zero value {k}{w * 8}', f'pub const {name} : {zt} ;'))
+    for name, h in (('Z_vec', vec), ('Z_arr', arr), ('Z_struct', stt)):
+        m.const(name, h, V('naga::Expression::ZeroValue', **{'0': h}))
+    m.const('C_compose', vec, V('naga::Expression::Compose', ty=vec, components=[]))
+    m.const(None, sc[('Float', 4)], V('naga::Expression::Literal', **{'0': V(L + 'F32', **{'0': K.Num('f32', 1.0)})}))
+    m.const('K_last', sc[('Uint', 4)], V('naga::Expression::Literal', **{'0': V(L + 'U32', **{'0': K.Num('u32', 9)})}))
+    expected.append(('K_last', 'literal U32(9u32)', 'pub const K_last : u32 = 9u32 ;'))
+    m.finish()
+    ev = K.SkelEval(ogp, m, {}, '', None)
+    ev.markers = False
+    ev.params.append({(q, p['pat']['name']): m.module for p in f['params']})
+    try:
+        got = [' '.join(str(ev.tokens(x)).split()) for x in ev.iterable(ev.ev(summ), summ)]
+    except (Diverge, Unbound) as ex:
+        for r_ in ('C15.literal-row', 'C15.zero-value', 'C15.non-scalar-skipped', 'C15.name-identity'):
+            rep.bad(r_, 'instantiation', where, f'cannot instantiate the constants section on the model constant list: {ex}', undecided=True)
+        return
+    squash = lambda s_: s_.replace(' ', '')
+    by_name = {}
+    for g in got:
+        parts = g.split()
+        nm = parts[2] if len(parts) > 3 and parts[:2] == ['pub', 'const'] else None
+        by_name.setdefault(nm, []).append(g)
+    for name, what, exp in expected:
+        items = by_name.get(name, [])
+        rule = 'C15.zero-value' if what.startswith('zero') else 'C15.literal-row'
+        key = ('C15.zero-value:' if what.startswith('zero') else 'C15.literal:') + what.split('(')[0].replace('literal ', '').replace('zero value ', '') + \
+              (':' + what.split('(')[1].rstrip(')') if '(' in what else '')
+        rep.check(len(items) == 1 and squash(items[0]) == squash(exp), rule, key, where,
+                  f'a named constant initialised by the {what} is exported as {items if items else "nothing"}; expected `{exp}` (declared type = the payload\'s type, value = the payload itself)',
+                  ok_detail=exp)
+    exp_names = [e[0] for e in expected]
+    extra = [g for nm, gs in by_name.items() for g in gs if nm not in exp_names]
+    rep.check(not extra, 'C15.non-scalar-skipped', 'non-scalar', where,
+              f'items are also produced for non-scalar zero values / other expression kinds / unnamed constants: {extra[:3]}', ok_detail='only scalar literals and scalar zero values of named constants yield an item')
+    order = [g.split()[2] for g in got if len(g.split()) > 3 and g.split()[2] in exp_names]
+    rep.check(order == exp_names, 'C15.name-identity', 'names-and-order', where,
+              f'the exported constants are {order[:6]}..; expected the constants\' own names in declaration order {exp_names[:6]}..', ok_detail=f'{len(order)} items, own names, declaration order')
+    rep.floor('model constants compared', len(expected), 30)
